@@ -95,6 +95,9 @@ theorem C18_cliPrepareRetrospective (a : Args) : OnlyG (prog .cliPrepareRetrospe
 theorem C18_cliCalculateScores (a : Args) : OnlyG (prog .cliCalculateScores a) := C18_scoreChunk a
 theorem C18_cliSelectNextPlate (a : Args) : OnlyG (prog .cliSelectNextPlate a) := C18_selectNextPlate a
 theorem C18_cliTrainModel (a : Args) : OnlyG (prog .cliTrainModel a) := C18_sampleMCMC a
+/-- `evaluate_model --seed`: no draw from any source -/
+theorem C18_cliEvaluateModel (a : Args) : OnlyG (prog .cliEvaluateModel a) ∧ trace .cliEvaluateModel a = [] :=
+  ⟨OnlyG.ret [], rfl⟩
 
 /-! ### assembly -/
 
@@ -107,7 +110,7 @@ theorem C18_claimed_onlyG (op : Op) (hop : op.excluded = false) (a : Args) : Onl
     | exact C18_kPerSamplePolicy a | exact C18_selectNextPlate a | exact C18_scoreChunk a
     | exact C18_sampleMvn a | exact C18_gibbsSweep a | exact C18_sampleMCMC a
     | exact C18_cliPrepareRetrospective a | exact C18_cliCalculateScores a
-    | exact C18_cliSelectNextPlate a | exact C18_cliTrainModel a
+    | exact C18_cliSelectNextPlate a | exact C18_cliTrainModel a | exact (C18_cliEvaluateModel a).1
 
 /-- Non-interference for every modelled operation except those excluded by name: for all
 arguments `a` (input shapes, options, the value-dependent loop decision of the greedy cover), all
@@ -140,14 +143,14 @@ claimed CLI step is the same for equal seeds whatever the global state and the O
 both are returned unchanged. -/
 theorem C18_cli_seed (genOfSeed : Nat → Stream) (seed : Nat) (a : Args) (γ γ' ω ω' : Stream)
     (op : Op) (hop : op = .cliPrepareRetrospective ∨ op = .cliCalculateScores ∨
-      op = .cliSelectNextPlate ∨ op = .cliTrainModel) :
+      op = .cliSelectNextPlate ∨ op = .cliTrainModel ∨ op = .cliEvaluateModel) :
     (runCli genOfSeed seed op a γ ω).out = (runCli genOfSeed seed op a γ' ω').out ∧
     (runCli genOfSeed seed op a γ ω).world.γ = γ ∧
     (∀ e ∈ (runCli genOfSeed seed op a γ ω).trace, e.src = .supplied) ∧
     prog .cliCalculateScores a = prog .scoreChunk a ∧
     prog .cliSelectNextPlate a = prog .selectNextPlate a ∧
     prog .cliTrainModel a = prog .sampleMCMC a := by
-  have hex : op.excluded = false := by rcases hop with rfl | rfl | rfl | rfl <;> rfl
+  have hex : op.excluded = false := by rcases hop with rfl | rfl | rfl | rfl | rfl <;> rfl
   have := C18_noninterference_partial op hex a id (genOfSeed seed) γ γ' ω ω'
   exact ⟨this.1, this.2.2.1, this.2.2.2.2, rfl, rfl, rfl⟩
 
